@@ -135,6 +135,18 @@ func c18Machine(seed uint64, budget int, lg *caseLog) c18Report {
 			o.Payload = jm.Data
 			muts = append(muts, mutant2{"payload:" + jm.Label, o})
 		}
+		if string(rc.Op.Type) == OpSigning {
+			var pl map[string]interface{}
+			if json.Unmarshal(rc.Op.Payload, &pl) == nil {
+				for _, rg := range hostileRanges {
+					tasks, _ := json.Marshal([]interface{}{map[string]interface{}{"MessageID": "r", "RangeStart": rg[0], "RangeEnd": rg[1]}})
+					pl["SrcPayload"] = tasks
+					o := rc.Op
+					o.Payload, _ = json.Marshal(pl)
+					muts = append(muts, mutant2{fmt.Sprintf("payload:hostile-range:[%d,%d)", rg[0], rg[1]), o})
+				}
+			}
+		}
 		for _, id := range []string{"", "ab", "abcd", strings.Repeat("z", 4000)} {
 			o := rc.Op
 			o.DKGIdentifier = id
